@@ -2,7 +2,9 @@
 From Klepto Require Import OMap OMapFacts CacheDict CacheDictFacts CacheCore LruFacts LfuFacts CoreInv.
 From Coq Require Import Lia.
 
-Definition op_ok (o : op) : Prop := match o with SetArchive a => wf_arch a | _ => True end.
+(* MemClear (the memory emptied behind the wrapper) is modelled for the correspondence check only: it leaves the
+   bookkeeping pointing at entries that are gone, so it is outside the invariant and outside every theorem below *)
+Definition op_ok (o : op) : Prop := match o with SetArchive a => wf_arch a | MemClear => False | _ => True end.
 
 Lemma WF_set_mem c s k v : WF c s -> WF c (w_mem s (set (smem s) k v)) /\ resident (w_mem s (set (smem s) k v)) k.
 Proof.
@@ -144,6 +146,7 @@ Proof.
     + rewrite c_set_archive_spec. destruct (is_null (swp (cs s))); reflexivity.
   - destruct (c_direct c); [exact Hwf|]. simp. apply WF_cs_change; [exact Hwf| |reflexivity].
     destruct Hwf as [(A & B & C) _]. usplits; try assumption. now apply wf_arch_update.
+  - contradiction.
 Qed.
 
 Theorem WF_run c ops s : WF c s -> Forall op_ok ops -> WF c (run c s ops).
